@@ -48,7 +48,7 @@ def cases(draw):
         n = draw(st.integers(0, 6 * 1024))
     return {'pages': pc, 'n': n, 'fw_seed': draw(st.integers(0, 2 ** 32)), 'tail': draw(st.sampled_from([0, 0, 1, 2])),
             'sched_seed': draw(st.integers(0, 2 ** 32)), 'density': draw(st.sampled_from([0.0, 0.1, 0.5, 1.0])),
-            'start_error': draw(st.sampled_from([None, None, None, 10, 15, 4]))}
+            'start_error': draw(st.sampled_from([None, None, None, 10, 15, 4])), 'symlink': draw(st.integers(0, 3)) == 0}
 
 
 def judge(c, res):
@@ -58,7 +58,7 @@ def judge(c, res):
     sched = make_schedule(c['sched_seed'], c['density'], need + 2, c['start_error'])
     nbusy = sum(len(v) for (kind, k), v in sched['busy'].items() if k < need)
     with env.scratch_dir('bbv-c18-') as d:
-        r = _dfu.run(c['pages'], fw, sched, d)
+        r = _dfu.run(c['pages'], fw, sched, d, symlink=c.get('symlink', False))
     dev = r['device']
     payload = {'kind': 'dfu', 'params': c}
     why = None
@@ -115,17 +115,60 @@ def lengths_job(lo, hi):
     return res
 
 
+OPT_CASES = [{'pages': pc, 'n': n, 'fw_seed': 7 * n + pc, 'tail': n % 3, 'sched_seed': n + pc, 'density': d, 'start_error': se, 'symlink': False}
+             for pc, n, d, se in [(16, 0, 0.0, None), (16, 1, 0.0, None), (16, 1024, 0.5, None), (16, 1500, 0.5, 10), (16, 16384, 0.1, None), (16, 16383, 1.0, None),
+                                  (32, 5000, 0.5, None), (32, 32768, 0.0, 15), (64, 40000, 0.1, None), (128, 131072, 0.0, None), (128, 70001, 0.5, 4),
+                                  (64, 65535, 1.0, None)]]
+
+
+def _opt_child():
+    """Runs inside `python -O` (assert statements removed): a handful of fixed runs; prints the failures as JSON."""
+    import sys
+    bad = []
+    res = env.Result()
+    for c in OPT_CASES:
+        try:
+            judge(c, res)
+        except env.CaseFailure as f:
+            bad.append([f.sig, f.what, f.case])
+    sys.stdout.write('OPTRESULT ' + json.dumps({'optimized': not __debug__, 'ran': res.evaluations, 'bad': bad}) + '\n')
+
+
+def opt_job():
+    """The flasher under PYTHONOPTIMIZE / python -O, a configuration users do run: behaviour must not hang on assert statements."""
+    import os
+    import subprocess
+    import sys
+    res = env.Result()
+    root = os.path.dirname(os.path.dirname(os.path.abspath(__file__)))
+    p = subprocess.run([sys.executable, '-O', '-W', 'ignore', '-c', 'from checks import c18; c18._opt_child()'], cwd=root,
+                       env=dict(os.environ, PYTHONDONTWRITEBYTECODE='1'), stdout=subprocess.PIPE, stderr=subprocess.PIPE, timeout=600)
+    line = [ln for ln in p.stdout.decode().splitlines() if ln.startswith('OPTRESULT ')]
+    if p.returncode != 0 or not line:
+        raise env.HarnessError('python -O child failed: rc=%d %s' % (p.returncode, p.stderr.decode()[-400:]))
+    body = json.loads(line[0][len('OPTRESULT '):])
+    if not body['optimized'] or body['ran'] != len(OPT_CASES):
+        raise env.HarnessError('python -O child did not run optimized / did not run all cases: %r' % (body,))
+    res.evaluations = body['ran']
+    res.count('runs_under_python_-O', body['ran'])
+    for sig, what, case in body['bad']:
+        case = dict(case, optimize=True)
+        res.fail('optimized:' + sig, 'under python -O: ' + what, case)
+    return res
+
+
 def run(tier):
     chk = env.Check(PROP, tier)
     _dfu.load_dfu()
     per = max(1, N[tier] // env.NPROC)
     chk.merge(env.run_shards(shard, [(per, s) for s in range(env.NPROC)]))
+    chk.merge(env.run_shards(opt_job, [()]))
     if tier == 'thorough':
         step = 16385 // env.NPROC + 1
         chk.merge(env.run_shards(lengths_job, [(a, min(a + step, 16385)) for a in range(0, 16385, step)]))
     chk.rule = ('Hypothesis: bronzebeard.dfu.cli_main() in-process against a simulated DfuSe device (4 flash sizes; firmware length 0, 1, k*1024 '
                 '+ {-1,0,1}, size - {0,1,...}, drawn; content PRNG(seed) with 0x00/0xff tails; per-operation busy schedules of 0-4 (now and then 31-257) dfuDNBUSY answers '
-                'with poll delays 0..2^24-1 ms, delays on non-busy answers, device initially in dfuERROR) with a virtual clock owned by the harness%s. '
+                'with poll delays 0..2^24-1 ms, delays on non-busy answers, device initially in dfuERROR, firmware path sometimes a symbolic link) with a virtual clock owned by the harness%s; plus 12 fixed runs in a `python -O` child process. '
                 'oracle: flash[0:len] == image, rest of last page 0x00, all other pages untouched; erase-before-write, addresses inside flash, '
                 'no request before a requested delay elapsed, DNLOAD only after the previous operation was polled to completion; exit status 0. '
                 'non-trivial = run with >= 1 busy poll and a length that is not a multiple of 1024 or exactly the flash size; distinct by parameter tuple'
@@ -138,7 +181,12 @@ def replay(path):
     with open(path) as f:
         body = json.load(f)
     try:
-        judge(body['case']['params'], env.Result())
+        if body['case'].get('optimize'):
+            r = opt_job()
+            if r.failures:
+                raise env.CaseFailure(r.failures[0]['sig'], r.failures[0]['what'], body['case'])
+        else:
+            judge(body['case']['params'], env.Result())
     except env.CaseFailure as cf:
         print('VIOLATION property=%s replay=%s' % (PROP, path))
         print('  ' + str(cf.what)[:1000])
